@@ -18,8 +18,8 @@ B = pbstub.make_stub(pb.SwitchStateResponse)  # wire id 26
 REQ = pb.SubscribeStatesRequest()
 
 # events
-MSG_A, MSG_B, DRAIN, TIMER, CANCEL0, CANCEL1, CLOSE, SPAWN1, TURN = range(9)
-NAMES = ["MSG_A", "MSG_B", "DRAIN", "TIMER", "CANCEL0", "CANCEL1", "CLOSE", "SPAWN1", "TURN"]
+MSG_A, MSG_B, DRAIN, TIMER, CANCEL0, CANCEL1, CLOSE, SPAWN1, TURN, FAILW = range(10)
+NAMES = ["MSG_A", "MSG_B", "DRAIN", "TIMER", "CANCEL0", "CANCEL1", "CLOSE", "SPAWN1", "TURN", "FAILW"]
 NE = len(NAMES)
 CFG = shard_int("CFG", 0)
 SH0 = shard_int("SH0", 0)
@@ -81,7 +81,9 @@ def _run(events: list, keys: list, pa0: int, ps0: int, pa1: int, ps1: int) -> bo
 
                 c.task = asyncio.Task(call(), loop=loop, eager_start=True)
                 c.wrote = len(helper.writes) - nw
-                if conn.connection_state is ConnectionState.CLOSED:
+                if helper.fail is not None:
+                    c.model_done = "writefail"
+                elif conn.connection_state is ConnectionState.CLOSED:
                     c.model_done = "refused"
 
             def model_deliver(cls, m):
@@ -149,7 +151,18 @@ def _run(events: list, keys: list, pa0: int, ps0: int, pa1: int, ps1: int) -> bo
                 elif ev == SPAWN1:
                     if calls[1].task is not None:
                         return True
+                    was_open = conn.connection_state is not ConnectionState.CLOSED
                     spawn(calls[1])
+                    if helper.fail is not None and was_open:
+                        # the failed write is a fatal error of the connection: every other pending call ends with it
+                        for c in calls:
+                            if c.task is not None and c.model_done is None:
+                                c.model_done = "closed"
+                        closed_exc = SocketClosedAPIError("write failed")
+                elif ev == FAILW:
+                    if helper.fail is not None or calls[1].task is not None or conn.connection_state is ConnectionState.CLOSED:
+                        return True
+                    helper.fail = OSError("write failed")
             loop.run_ready()
             if track.reached():
                 return False
@@ -158,9 +171,9 @@ def _run(events: list, keys: list, pa0: int, ps0: int, pa1: int, ps1: int) -> bo
                 if c.task is None:
                     continue
                 md = c.model_done
-                if md == "refused":
+                if md == "refused" or md == "writefail":
                     if not c.task.done() or c.task.cancelled() or not isinstance(c.task.exception(), APIConnectionError) or c.wrote:
-                        return track.fail(f"call {c.idx} on a closed connection was not refused cleanly; trace={trace}")
+                        return track.fail(f"call {c.idx} {'whose request could not be written' if md == 'writefail' else 'on a closed connection'} did not fail cleanly with a connection error; trace={trace}")
                     continue
                 if c.wrote != 1:
                     return track.fail(f"call {c.idx} did not write its request exactly once at call time; trace={trace}")
